@@ -16,6 +16,7 @@
 #include <sys/socket.h>
 #include <unistd.h>
 
+#include <algorithm>
 #include <map>
 #include <memory>
 
@@ -212,6 +213,85 @@ static std::string run_dv(const std::string& d) {
   return out;
 }
 
+// ------------------------------------------------------------------ PeerList with PeerInfo entries
+//   PI <max> <now> ops…   I <6- or 18-byte record hex> <flags 0|1>   PeerList::insert_address(sa, flags)
+//                         S <ip hex> <connected 0|1> <last_handshake> harness set-up of an existing PeerInfo
+//                         N <now>                                     set cached_seconds
+//                         T/X/B/R as in the PL cases of harness/c14.cc
+static sa_inet_union rec_addr(const std::string& b) {
+  AddressList l;
+  if (b.size() == 6) l.parse_address_compact(b);
+  else if (b.size() == 18) l.parse_address_compact_ipv6(b);
+  if (l.size() != 1) throw std::runtime_error("addr");
+  return l[0];
+}
+
+static std::string run_pi(const std::vector<std::string>& t) {
+  PeerList pl;
+  pl.m_available_list->set_max_size(std::stoul(t.at(1)));
+  ThreadMain::thread_main()->set_cached_time(std::chrono::seconds(std::stoll(t.at(2))));
+  std::string rets;
+  auto add_ret = [&](uint32_t r) { if (!rets.empty()) rets += ','; rets += std::to_string(r); };
+  auto find_pi = [&](const std::string& iphex) -> PeerInfo* {
+    for (auto& kv : pl) {
+      auto sa = kv.second->socket_address();
+      sa_inet_union u = sa_inet_union_from_sa(sa);
+      std::string ip = u.sa.sa_family == AF_INET ? hexn(reinterpret_cast<const unsigned char*>(&u.inet.sin_addr.s_addr), 4)
+                                                 : hexn(u.inet6.sin6_addr.s6_addr, 16);
+      if (ip == iphex) return kv.second.get();
+    }
+    return nullptr;
+  };
+  for (size_t i = 3; i < t.size();) {
+    const std::string& op = t.at(i++);
+    if (op == "I") {
+      sa_inet_union u = rec_addr(unhex(t.at(i++)));
+      int flags = std::stoi(t.at(i++)) ? PeerList::address_available : 0;
+      pl.insert_address(&u.sa, flags);
+    } else if (op == "S") {
+      PeerInfo* p = find_pi(t.at(i));
+      bool conn = t.at(i + 1) == "1";
+      uint32_t lh = std::stoul(t.at(i + 2));
+      i += 3;
+      if (p != nullptr) {
+        p->set_connection(conn ? reinterpret_cast<PeerConnectionBase*>(8) : nullptr);
+        p->set_last_handshake(lh);
+      }
+    } else if (op == "N") {
+      ThreadMain::thread_main()->set_cached_time(std::chrono::seconds(std::stoll(t.at(i++))));
+    } else if (op == "X") {
+      exact_buf b(unhex(t.at(i++)));
+      add_ret(pl.insert_pex_list(raw_string(b.p, b.n)));
+    } else {
+      exact_buf b4(unhex(t.at(i++)));
+      std::string s6 = unhex(t.at(i++));
+      AddressList l;
+      l.parse_address_compact(raw_string(b4.p, b4.n));
+      l.parse_address_compact_ipv6(s6);
+      if (op == "T") l.sort_and_unique();
+      else if (op == "B") l.sort();
+      else if (op != "R") return "BADCASE";
+      add_ret(pl.insert_available(&l));
+    }
+  }
+  std::vector<std::string> pis;
+  for (auto& kv : pl) {
+    PeerInfo* p = kv.second.get();
+    sa_inet_union u = sa_inet_union_from_sa(p->socket_address());
+    std::string ip = u.sa.sa_family == AF_INET ? "4." + hexn(reinterpret_cast<const unsigned char*>(&u.inet.sin_addr.s_addr), 4)
+                                               : "6." + hexn(u.inet6.sin6_addr.s6_addr, 16);
+    pis.push_back(ip + "/" + std::to_string(p->listen_port()) + "/" + std::to_string(sa_port(p->socket_address())) + "/" +
+                  (p->connection() != nullptr ? "1" : "0") + "/" + std::to_string(p->last_handshake()));
+    p->set_connection(nullptr);
+  }
+  std::sort(pis.begin(), pis.end());
+  std::string ps;
+  for (auto& x : pis) { if (!ps.empty()) ps += ','; ps += x; }
+  auto av = pl.m_available_list.get();
+  ThreadMain::thread_main()->set_cached_time(std::chrono::seconds(400ll * 86400));
+  return "OK ret=" + (rets.empty() ? std::string("-") : rets) + " avail=" + show_addrs(av->begin(), av->end()) + " pi=" + (ps.empty() ? "-" : ps);
+}
+
 // ------------------------------------------------------------------ main
 
 static void on_alarm(int) {
@@ -232,6 +312,7 @@ int main() {
     try {
       if (t.size() >= 2 && t[0] == "DH") std::cout << run_dh(t) << "\n";
       else if (t.size() == 2 && t[0] == "DV") std::cout << run_dv(unhex(t[1])) << "\n";
+      else if (t.size() >= 3 && t[0] == "PI") std::cout << run_pi(t) << "\n";
       else std::cout << "BADCASE\n";
     } catch (internal_error& e) {
       std::cout << "ERR:internal " << e.what() << "\n";
